@@ -36,6 +36,8 @@ Section Final.
   Let PW : pair_wf G H := proj1 (pair_wfb_sound G H W).
   Let CG : closed G := proj1 (proj2 (pair_wfb_sound G H W)).
   Let CH : closed H := proj2 (proj2 (pair_wfb_sound G H W)).
+  Let NHH : forall u v x, In (u, v, x) (gedges (its_construct G H)) -> is_hh (its_construct G H) u v = false.
+  Proof. c03 (noH_noHH G H) as X. exact X. Qed.
 
   Lemma NH_H : no_explicit_H H = true.
   Proof.
